@@ -462,6 +462,11 @@ func runC14(w *core.W) {
 			if l >= 2 {
 				c.Sep = gen.Layout(r, f, 2)
 			}
+			if l >= 4 || l == 2 {
+				// also line breaks between '.' / '!.' and the member name: these are two tokens like any others
+				c.Sep = gen.Layout(r, f, 3)
+				w.Count("layouts_with_breaks_after_dot")
+			}
 			c14Spacing(w, c)
 		}
 		// the exception of the statement: a line break right before '.', '!.' or a call's '(' is not insignificant
